@@ -31,6 +31,24 @@ type session struct {
 	// result (Status 0xFFFFFFFF) instead of abandoning the case. For checks whose
 	// oracle does not read the reply (backend recorder checks).
 	tolerateMalformed bool
+	decoy             *absnfs.AbsfsNFS
+}
+
+// newDecoy creates a second, unrelated export in the same process with settings that contrast with opts (other
+// read-only flag, tiny transfer size and file-size limit, other squash mode, one cache slot) and retunes it once.
+// Exports share nothing: whatever the decoy is configured with may not show in the export under test.
+func newDecoy(opts absnfs.ExportOptions) *absnfs.AbsfsNFS {
+	sq := "all"
+	if opts.Squash == "all" {
+		sq = "none"
+	}
+	d, err := absnfs.New(vfs.New(), absnfs.ExportOptions{ReadOnly: !opts.ReadOnly, TransferSize: 512, MaxFileSize: 1, Squash: sq, AttrCacheSize: 1, AttrCacheTimeout: time.Hour,
+		CacheNegativeLookups: !opts.CacheNegativeLookups, EnableDirCache: !opts.EnableDirCache, MaxWorkers: 1, Secure: true, AllowedIPs: []string{"203.0.113.77"}})
+	if err != nil {
+		return nil
+	}
+	d.UpdateTuningOptions(func(o *absnfs.TuningOptions) { o.TransferSize = 600; o.AttrCacheSize = 2 })
+	return d
 }
 
 func newSession(tb stat.TB, v *vfs.FS, opts absnfs.ExportOptions) *session {
@@ -38,7 +56,7 @@ func newSession(tb stat.TB, v *vfs.FS, opts absnfs.ExportOptions) *session {
 	if err != nil {
 		tb.Fatalf("harness: absnfs.New: %v", err)
 	}
-	return &session{tb: tb, e: e, v: v, cl: drv.Root()}
+	return &session{tb: tb, e: e, v: v, cl: drv.Root(), decoy: newDecoy(opts)}
 }
 
 // newSessionOn is newSession with the server running on backend (a wrapper around v).
@@ -47,10 +65,13 @@ func newSessionOn(tb stat.TB, backend absfs.SymlinkFileSystem, v *vfs.FS, opts a
 	if err != nil {
 		tb.Fatalf("harness: absnfs.New: %v", err)
 	}
-	return &session{tb: tb, e: e, v: v, cl: drv.Root()}
+	return &session{tb: tb, e: e, v: v, cl: drv.Root(), decoy: newDecoy(opts)}
 }
 
 func (s *session) close() {
+	if s.decoy != nil {
+		s.decoy.Close()
+	}
 	if s.e.ViaConn {
 		stat.Label("session_over_connection_loop", 1)
 	}
